@@ -46,6 +46,7 @@ class Contract:
         self.self_type: Optional[str] = kw.pop("self_type", None)
         self.pure: bool = kw.pop("pure", True)
         self.path_hints: Dict[str, Any] = kw.pop("path_hints", {})
+        self.is_property: bool = kw.pop("is_property", False)
         if kw:
             raise TypeError(f"unknown contract fields {list(kw)} in {key}")
 
@@ -65,7 +66,10 @@ class Contract:
 
 class Spec:
     def __init__(self, name: str, params: str, body: str, types: Optional[Dict[str, str]] = None,
-                 returns: str = "Bool", recursive: bool = False):
+                 returns: str = "Bool", recursive: bool = False, opaque: bool = False):
+        # opaque: callers see an uninterpreted predicate plus its definitional axiom (instantiated by
+        # pattern on applications) instead of the inlined body -- hides quantifiers the proof does not need
+        self.opaque = opaque
         self.name = name
         self.params = [p.strip() for p in params.split(",") if p.strip()]
         self.body = body
@@ -77,7 +81,9 @@ class Spec:
 class Record:
     def __init__(self, name: str, module: str, fields: Dict[str, str], construct: Optional[str] = None,
                  invariant: Optional[str] = None, file: Optional[str] = None,
-                 enum: Optional[List[Dict[str, Any]]] = None, value_eq: bool = True):
+                 enum: Optional[List[Dict[str, Any]]] = None, value_eq: bool = True,
+                 mutable: Optional[List[str]] = None):
+        self.mutable = mutable or []    # fields that methods other than the constructor may write (caches)
         self.enum = enum or []          # small field assignments for cross-check / shadow inputs
         self.value_eq = value_eq        # dataclass-style structural __eq__
         self.name = name
